@@ -3,3 +3,4 @@ import DsdVerif.Props.C19Ssw
 import DsdVerif.Props.C19More
 import DsdVerif.Props.C19Doc
 import DsdVerif.Props.C19Layout
+import DsdVerif.Props.C19Tabs
